@@ -289,7 +289,14 @@ func (pf *ProofBobWC) Verify(Session []byte, ec elliptic.Curve, pk *paillier.Pub
 
 	// 4. runs only in the "with check" mode from Fig. 10
 	if X != nil {
+		if !X.ValidateBasic() || pf.U == nil || !pf.U.ValidateBasic() {
+			return false
+		}
 		s1ModQ := new(big.Int).Mod(pf.S1, ec.Params().N)
+		// s1 = 0 mod q would make s1*G the identity, which ECPoint cannot represent (ScalarBaseMult panics)
+		if s1ModQ.Sign() == 0 {
+			return false
+		}
 		gS1 := crypto.ScalarBaseMult(ec, s1ModQ)
 		xEU, err := X.ScalarMult(e).Add(pf.U)
 		if err != nil || !gS1.Equals(xEU) {
